@@ -17,7 +17,7 @@ Require Import Verif.Proofs.CallerP.
    flags word, level, gate answer and skip count at construction time (the caller information is captured even if
    Lcaller is switched on later; the skip count is the one the logger has when it is written to) *)
 Require Verif.Model.GoSem Verif.Model.BridgeRef Verif.Gen.Bridge Verif.Proofs.GenBridgeP.
-Require Verif.Gen.Layout Verif.Gen.Tables Verif.Model.LayoutRef Verif.Model.Encode Verif.Proofs.GenLayoutP.
+Require Verif.Gen.Layout Verif.Gen.Escapes Verif.Gen.Tables Verif.Model.LayoutRef Verif.Model.Encode Verif.Proofs.GenLayoutP.
 Theorem C14_gen_bridge_pc : forall f_level enabled_then skip_then flags deflevel h lvl f_enabled f_skip f_getpc as_aware w_n w_e buf tr,
   match Bridge.new_log_logger f_level enabled_then skip_then flags deflevel h lvl with
   | BridgeRef.mk_bridge (l, v, cap, extra) _ _ =>
@@ -100,6 +100,21 @@ Theorem C14_gen_funcname_plain : forall f flags prov name, Z.land flags Tables.c
   Layout.checked_funcname f flags prov name = Some (Encode.after_last_slash name).
 Proof. intros f flags prov name H. rewrite GenLayoutP.gen_checked_funcname. exact (GenLayoutP.checked_funcname_plain f flags prov name H). Qed.
 Print Assumptions C14_gen_funcname_plain.
+
+(* THE CALLER PART OF A RECORD.  Entry.printPC, translated from the source on every run over the other translations
+   (the separators, pcAppendStringKey, checkedfuncname, echoResetColor; the Add* members, AppendInt, the colour library's
+   WrapColorTo and what pc.source() hands out are parameters): in the plain formats the member separator first, then in
+   JSON mode the member `caller` holding an object with file, line and function in that order, in logfmt the three
+   members caller.file / caller.line / caller.function; in colour mode a blank, the file, ':', the line, a blank, the
+   function name as checkedfuncname gives it in dark gray, and the colours reset.  The file, the line and the function
+   printed are those of the ONE source value of the record, in all three formats. *)
+Theorem C14_gen_print_pc : forall fas fai fps fpi fap fwc fra hex safe flags prov src pc noColor json buf,
+  Layout.print_pc fas fai fps fpi fap fwc fra hex safe flags prov src pc noColor json buf =
+  LayoutRef.print_pc_ref fas fai fps fpi fap fwc
+    (fun b => Escapes.string_key hex safe json b [x63;x61;x6c;x6c;x65;x72])
+    (Layout.checked_funcname fra flags prov (LayoutRef.src_function src)) [x1b;x5b;x30;x6d] src noColor json buf.
+Proof. exact GenLayoutP.gen_print_pc. Qed.
+Print Assumptions C14_gen_print_pc.
 
 Example C14_example :
   (match find_ep [x70;x6b;x67] [x49;x6e;x66;x6f] entry_points with
